@@ -602,6 +602,9 @@ def send_return_kinds(prog: Program, crs: List[ClientRoles]) -> FrozenSet[str]:
     return frozenset(out)
 
 
+from ..util import canon_dotted as _canon_d     # noqa: E402
+
+
 def retry_loop_facts(prog: Program, outer: FuncInfo, w: FuncInfo, func_ret: FrozenSet[str]) -> Tuple[Dict[str, Any], List[Problem]]:
     problems: List[Problem] = []
     facts: Dict[str, Any] = {}
@@ -743,7 +746,8 @@ def retry_loop_facts(prog: Program, outer: FuncInfo, w: FuncInfo, func_ret: Froz
                 conds.add('codes-set')
             elif isinstance(g.src.ast, ast.Compare) and isinstance(g.src.ast.ops[0], (ast.In, ast.NotIn)) and \
                     pos == isinstance(g.src.ast.ops[0], ast.In) and \
-                    dotted(g.src.ast.comparators[0]) == f'{strat_param}.codes' and norm(g.src.ast.left).endswith('.code'):
+                    (_canon_d(w, g.src.ast.comparators[0]) or dotted(g.src.ast.comparators[0])) == f'{strat_param}.codes' and \
+                    norm(g.src.ast.left).endswith('.code'):
                 conds.add('code-in-codes')
             elif ckd.kind == 'is-none' and pos == ckd.negated:
                 conds.add('response-not-none')
@@ -1001,17 +1005,35 @@ def _delay_shape(val: Optional[ast.expr], g: FuncInfo, cfg: Optional[CFG] = None
             return 'unconditional cap'
         if st != 'set' or len(e.args) != 2:
             return 'unrecognised cap'
-        args = [a_ for a_ in e.args if dotted(a_) != 'self.max_value']
+        from ..util import canon_dotted as _cdm
+        args = [a_ for a_ in e.args if (_cdm(g, a_) or dotted(a_)) != 'self.max_value']
         if len(args) != 1:
             return 'unrecognised cap'
-        inner = fl.alts(al.node or ynode, args[0])
+        inner = [x for x in fl.alts(al.node or ynode, args[0]) if x.expr is not e]
         if not inner or not all(jitter_leaf(x.expr) for x in inner):
             return 'cap(base) without jitter inside the cap'
         inner_texts |= {norm(x.expr) for x in inner}
+    capped_nodes = [al.node for al in capped if al.node is not None]
     for al in plain:
         st = max_state(al.guards)
         if st == 'non-identity':
             return 'cap guarded by a non-identity test'
+        if st is None and al.node is not None and capped_nodes:
+            # `value = X; if max is not None: value = min(max, value); yield value`: the uncapped value reaches the yield only past the
+            # test's false edge — it must not get there on a path where the maximum is set
+            set_edges, none_edges = [], []
+            for c_ in cfg.nodes:
+                if c_.kind == 'cond':
+                    k_ = classify_cond(prog, g, c_.ast)
+                    if k_.subject == 'self.max_value' and k_.kind == 'is-none':
+                        for ed in cfg.succ[c_.id]:
+                            if ed.label in ('T', 'F'):
+                                (none_edges if (ed.label == 'T') != k_.negated else set_edges).append(ed)
+            if set_edges:
+                when_set = ynode.id in cfg.reachable(al.node, avoid_nodes=capped_nodes, avoid_edges=none_edges)
+                when_none = ynode.id in cfg.reachable(al.node, avoid_nodes=capped_nodes, avoid_edges=set_edges)
+                if when_none and not when_set:
+                    st = 'none'
         if st != 'none' or not jitter_leaf(al.expr) or norm(al.expr) not in inner_texts:
             return 'unrecognised cap'
     if not plain:
